@@ -74,6 +74,8 @@ func (s *Sched) Pending() []*Parked {
 }
 
 func (s *Sched) Release(p *Parked) {
+	// each released goroutine proceeds at its own fake instant (see Sleep)
+	Sleep(0)
 	s.mu.Lock()
 	for i, x := range s.parked {
 		if x == p {
